@@ -33,6 +33,10 @@ pub struct ChannelQueue {
 
   send_waiters: VecDeque<Ref<ChannelWaiter>>,
   receive_waiters: VecDeque<Ref<ChannelWaiter>>,
+
+  /// The sender whose value currently occupies a sync queue. It stays
+  /// parked until that value has been taken
+  parked_sender: Option<Ref<ChannelWaiter>>,
 }
 
 impl ChannelQueue {
@@ -47,6 +51,7 @@ impl ChannelQueue {
 
       send_waiters: VecDeque::new(),
       receive_waiters: VecDeque::new(),
+      parked_sender: None,
     }
   }
 
@@ -63,6 +68,7 @@ impl ChannelQueue {
 
       send_waiters: VecDeque::new(),
       receive_waiters: VecDeque::new(),
+      parked_sender: None,
     }
   }
 
@@ -117,6 +123,7 @@ impl ChannelQueue {
       ChannelQueueState::Ready => {
         if self.is_sync() && self.queue.is_empty() {
           self.queue.push_back(val);
+          self.parked_sender = Some(waiter);
           self.send_waiters.push_back(waiter);
           return SendResult::FullBlock(find_runnable_waiter(&mut self.receive_waiters));
         }
@@ -139,7 +146,10 @@ impl ChannelQueue {
   pub fn receive(&mut self, waiter: Ref<ChannelWaiter>) -> ReceiveResult {
     match self.state {
       ChannelQueueState::Ready => match self.queue.pop_front() {
-        Some(value) => ReceiveResult::Ok(value),
+        Some(value) => {
+          self.release_parked_sender();
+          ReceiveResult::Ok(value)
+        },
         None => {
           self.receive_waiters.push_back(waiter);
 
@@ -153,13 +163,25 @@ impl ChannelQueue {
         },
       },
       ChannelQueueState::Closed => match self.queue.pop_front() {
-        Some(value) => ReceiveResult::Ok(value),
+        Some(value) => {
+          self.release_parked_sender();
+          ReceiveResult::Ok(value)
+        },
         None => {
           self.state = ChannelQueueState::ClosedEmpty;
           ReceiveResult::Closed
         },
       },
       ChannelQueueState::ClosedEmpty => ReceiveResult::Closed,
+    }
+  }
+
+  /// The value of a parked sync sender has been taken. That sender is the
+  /// next sender to run, ahead of senders that are waiting to retry
+  fn release_parked_sender(&mut self) {
+    if let Some(sender) = self.parked_sender.take() {
+      self.send_waiters.retain(|waiter| *waiter != sender);
+      self.send_waiters.push_front(sender);
     }
   }
 
@@ -170,11 +192,17 @@ impl ChannelQueue {
       ChannelQueueKind::Sync => {
         if self.is_empty() && !self.is_closed() {
           find_runnable_waiter(&mut self.send_waiters)
-        } else if self.is_closed() && self.is_empty() {
+        } else if self.is_closed() {
           // once closed parked senders need to run as well to observe the close.
           // While a value is still queued its sender must stay parked until it is taken
+          let parked_sender = if self.is_empty() {
+            None
+          } else {
+            self.parked_sender
+          };
+
           find_runnable_waiter(&mut self.receive_waiters)
-            .or_else(|| find_runnable_waiter(&mut self.send_waiters))
+            .or_else(|| find_runnable_waiter_except(&mut self.send_waiters, parked_sender))
         } else {
           find_runnable_waiter(&mut self.receive_waiters)
         }
@@ -207,6 +235,30 @@ fn find_runnable_waiter(queue: &mut VecDeque<Ref<ChannelWaiter>>) -> Option<Ref<
   None
 }
 
+/// Find a runnable waiter other than the provided one whose entries stay in the queue
+fn find_runnable_waiter_except(
+  queue: &mut VecDeque<Ref<ChannelWaiter>>,
+  except: Option<Ref<ChannelWaiter>>,
+) -> Option<Ref<ChannelWaiter>> {
+  let mut kept = VecDeque::new();
+  let mut found = None;
+
+  while let Some(waiter) = queue.pop_front() {
+    if Some(waiter) == except {
+      kept.push_back(waiter);
+    } else if waiter.is_runnable() {
+      found = Some(waiter);
+      break;
+    }
+  }
+
+  while let Some(waiter) = kept.pop_back() {
+    queue.push_front(waiter);
+  }
+
+  found
+}
+
 impl Trace for ChannelQueue {
   fn trace(&self) {
     for value in &self.queue {
@@ -216,6 +268,9 @@ impl Trace for ChannelQueue {
       waiter.trace();
     }
     for waiter in &self.receive_waiters {
+      waiter.trace();
+    }
+    if let Some(waiter) = &self.parked_sender {
       waiter.trace();
     }
   }
@@ -228,6 +283,9 @@ impl Trace for ChannelQueue {
       waiter.trace_debug(log);
     }
     for waiter in &self.receive_waiters {
+      waiter.trace_debug(log);
+    }
+    if let Some(waiter) = &self.parked_sender {
       waiter.trace_debug(log);
     }
   }
